@@ -333,11 +333,15 @@ class Run:
         self.orig_roid = op.get('ro_id', 'RO1')
         mk = lambda: MT.RunningOrder.from_string(text)
         self.twin = self.cfg.get('twin', False)
-        if self.twin:
-            self.Nn = mk()
-            self.T = mk()
-        if self.twin and self.cfg.get('double'):
-            self.D, self.DC = mk(), mk()
+        try:
+            if self.twin:
+                self.Nn = mk()
+                self.T = mk()
+            if self.twin and self.cfg.get('double'):
+                self.D, self.DC = mk(), mk()
+        except Exception:    # noqa - the judged read above succeeded; without a second copy there is no twin to run
+            self.twin = False
+            self.D = self.DC = None
         self.T_queue = []
         self.N_hist = []
         self.completed = False
@@ -439,7 +443,15 @@ class Run:
         self.poke(self.P.xml, obj.xml, lambda: str(obj) != snap, op,
                   'editing the running order\'s XML changes the message object that was merged')
         # -- N: always fresh objects, never shared with anything (reference for the twin, C13)
-        fresh = MT.MosFile.from_string(text if text is not None else data)
+        try:
+            fresh = MT.MosFile.from_string(text if text is not None else data)
+            fresh2 = [MT.MosFile.from_string(text if text is not None else data) for _ in range(4)] if self.D is not None else []
+        except Exception:    # noqa - a second parse of a message that was just parsed fails: nothing to compare with
+            self.twin = False
+            self.stats['twin.abandoned'] += 1
+            self.state_checks(op)
+            self.event(self.step_i, 'msg', op['type'], path, outcome, tuple(out['warnings']), digest(B))
+            return
         self.Nn, outN, _, sN = self.merge(self.Nn, fresh)
         self.N_hist.append((outN['exc'], sN, tuple(outN['warnings'])))
         # -- D / DC: the same object merged twice vs two fresh copies (C13)
@@ -449,15 +461,15 @@ class Run:
                 self.D, o, _, s = self.merge(self.D, obj)
                 r.append((o['exc'], s))
             rc = []
-            for _ in range(2):
-                self.DC, o, _, s = self.merge(self.DC, MT.MosFile.from_string(text))
+            for k in range(2):
+                self.DC, o, _, s = self.merge(self.DC, fresh2[k])
                 rc.append((o['exc'], s))
             self.stats['double'] += 1
             if r != rc:
                 self.add('C13.reuse', 'merging the same object twice differs from merging two fresh copies', op, {'mode': 'double'})
         elif self.D is not None:
-            self.D, _, _, _ = self.merge(self.D, MT.MosFile.from_string(text))
-            self.DC, _, _, _ = self.merge(self.DC, MT.MosFile.from_string(text))
+            self.D, _, _, _ = self.merge(self.D, fresh2[2])
+            self.DC, _, _, _ = self.merge(self.DC, fresh2[3])
         # -- T: the twin receives the same object, possibly later
         lag = step.get('twin_lag')
         j = len(self.N_hist) - 1
